@@ -60,6 +60,7 @@ func runC12(c *Ctx, r *Report) {
 	c12NoRecordDropped(c, r)
 	r.Rule("R12.7", "restructuring verbs order fields with stable sorts only: every sort call in the C12 verb files is a stable sort or a sort of plain strings (whose ties are identical); an unstable sort of fields that tie (cut -r -o: fields matching the same regex) would change their relative order in wide records")
 	checkStableSorts(c, r, "R12.7", c12VerbFiles, 3)
+	c12RegexSplice(c, r)
 }
 
 func c12Ownership(c *Ctx, r *Report) {
@@ -936,4 +937,74 @@ func loopOverNonEmptySplit(b *ssa.BasicBlock) bool {
 		}
 	}
 	return false
+}
+
+// c12RegexSplice (R12.8): a name spliced into a regular expression is quoted.
+func c12RegexSplice(c *Ctx, r *Report) {
+	r.Rule("R12.8", "a name spliced into a regular expression is quoted: wherever the verbs compile a pattern (regexp.Compile / MustCompile, lib.CompileMillerRegex…) from a string concatenation that mixes constant pattern text with a run-time string, the run-time part goes through regexp.QuoteMeta — a field name containing + . * ( [ would otherwise change what the pattern matches (nest --implode: 'a+b' implodes nothing, 'x.y' swallows xzy_1)")
+	n, nsplice := 0, 0
+	for _, fn := range c.ModuleFunctions() {
+		if fn.Blocks == nil || fn.Pkg == nil {
+			continue
+		}
+		pp := fn.Pkg.Pkg.Path()
+		if !(strings.HasSuffix(pp, "/pkg/transformers") || strings.HasSuffix(pp, "/pkg/transformers/utils")) {
+			continue
+		}
+		idx := 0
+		for _, b := range fn.Blocks {
+			for _, in := range b.Instrs {
+				call, ok := in.(*ssa.Call)
+				if !ok {
+					continue
+				}
+				cn := CalleeName(&call.Call)
+				if !(cn == "regexp.Compile" || cn == "regexp.MustCompile" || strings.HasPrefix(cn, "pkg/lib.CompileMillerRegex")) {
+					continue
+				}
+				n++
+				// flatten the concatenation
+				var parts []ssa.Value
+				var flat func(v ssa.Value, depth int)
+				flat = func(v ssa.Value, depth int) {
+					if bo, ok := v.(*ssa.BinOp); ok && bo.Op == token.ADD && depth < 8 {
+						flat(bo.X, depth+1)
+						flat(bo.Y, depth+1)
+						return
+					}
+					parts = append(parts, v)
+				}
+				arg := call.Call.Args[0]
+				// through a local: regexString := "^" + name + "…"
+				flat(arg, 0)
+				nconst, raw := 0, ""
+				for _, p := range parts {
+					switch x := p.(type) {
+					case *ssa.Const:
+						if x.Value != nil && x.Value.Kind() == constant.String && constant.StringVal(x.Value) != "" {
+							nconst++
+						}
+					case *ssa.Call:
+						if CalleeName(&x.Call) != "regexp.QuoteMeta" {
+							raw = "the result of " + CalleeName(&x.Call)
+						}
+					default:
+						raw = p.Name()
+						if prm, ok := p.(*ssa.Parameter); ok {
+							raw = "parameter " + prm.Name()
+						}
+					}
+				}
+				if len(parts) < 2 || nconst == 0 {
+					continue // a whole pattern given by the user (a -r option), or a constant
+				}
+				nsplice++
+				idx++
+				r.Check(raw == "", "R12.8", fmt.Sprintf("%s: spliced pattern #%d", SSAName(fn), idx), c.Rel(call.Pos()), "every run-time part is QuoteMeta'd",
+					fmt.Sprintf("%s compiles a pattern built from constant text and %s without regexp.QuoteMeta: regex metacharacters in that string change what the pattern matches", SSAName(fn), raw))
+			}
+		}
+	}
+	r.OK("R12.8", "pattern compilations in the verbs", "", fmt.Sprintf("%d compilations, %d of them of a spliced pattern", n, nsplice))
+	r.Floor("R12.8", "pattern compilations in the verbs", n, 8)
 }
